@@ -25,6 +25,10 @@ ASSUMPTIONS = ["calls end normally or with an Exception (a BaseException raised 
                "observer methods themselves do not raise (except that a member of a composite may fail to be entered: the members already entered must then be exited)"]
 
 
+def _tp_extra():
+    return "tp"
+
+
 class RecObs(ProgressObserver):
     def __init__(self):
         self.ev = []
@@ -111,11 +115,23 @@ def to_driver(ev):
 def one_case(rng, ctx, with_registry, mode="prim", op_switch_p=0.05, join_shape=False, interrupt_at=None):
     nobs = rng.choice([1, 1, 2, 3])
     prog = RecProgress(nobs)
+    # a fifth of the runs transform the physical plan: a NEW Plan object with one more call in a scope of its own (the 'run'
+    # totals must be those of the plan that is executed)
+    tp = None
+    if rng.random() < 0.2:
+        def tp(p, out):
+            p2 = p.copy()
+            with p2.scope("tp-added"):
+                extra = p2.call(_tp_extra)
+            if out is not None:
+                p2.add_dependency(extra, out)
+            return p2, out
     workers = rng.choice([1, 2, 3])
     sched = rng.choice(["default", "random"])
     me = rng.choice([0, 1, None])
     seed = rng.randrange(1 << 30)
-    info = {"registry": with_registry, "workers": workers, "scheduler": sched, "max_errors": me, "seed": seed, "observers": nobs}
+    info = {"registry": with_registry, "workers": workers, "scheduler": sched, "max_errors": me, "seed": seed, "observers": nobs,
+            "transform_physical": tp is not None}
     if with_registry:
         env = ce.Env()
         spec = ce.gen_cache_spec(rng, nmax=8)
@@ -132,7 +148,7 @@ def one_case(rng, ctx, with_registry, mode="prim", op_switch_p=0.05, join_shape=
         out = rng.sample(ids, min(len(ids), rng.choice([0, 1, 2])))
         plan, nodes, reg = b.plan, b.N, b.reg
         thunk = lambda: uberjob.run(plan, registry=reg, output=[nodes[i] for i in out], max_workers=workers, scheduler=sched,
-                                    max_errors=me, progress=prog)
+                                    max_errors=me, progress=prog, transform_physical=tp)
         info["spec"] = spec
         info["output"] = out
         info["failing"] = sorted(b.failing)
@@ -154,7 +170,7 @@ def one_case(rng, ctx, with_registry, mode="prim", op_switch_p=0.05, join_shape=
         out = rng.sample(ids, min(len(ids), rng.choice([1, 2, 3])))
         reg = None
         thunk = lambda: uberjob.run(plan, output=[nodes[i] for i in out], max_workers=workers, scheduler=sched, max_errors=me,
-                                    progress=prog)
+                                    progress=prog, transform_physical=tp)
         info["spec"] = spec
         info["output"] = out
         info["failing"] = {str(k): v for k, v in failing.items()}
@@ -292,8 +308,69 @@ def composite_enter_cases(ctx, replay=None):
     return {"violations": viol, "coverage": {"composite_enter_failure_cases": done}}
 
 
+class FreshObsProgress(Progress):
+    """a Progress that hands out a NEW recording observer for every run (as the bundled ones do)"""
+
+    def __init__(self):
+        self.made = []
+
+    def observer(self):
+        o = RecObs()
+        self.made.append(o)
+        return o
+
+
+def composite_reuse_cases(ctx):
+    """One Progress object — single, a flat composite, a nested composite, a list — used for several runs in a row: every run
+    gets observers of its own, each entered and exited exactly once around a legal account of THAT run."""
+    from uberjob.progress import composite_progress
+    rng = random.Random(ctx.seed * 131 + 7)
+    viol, done = [], 0
+    for shape in ("single", "flat", "nested", "with-console"):
+        members = [FreshObsProgress() for _ in range(3)]
+        if shape == "single":
+            prog, used = members[0], members[:1]
+        elif shape == "flat":
+            prog, used = composite_progress(*members), members
+        elif shape == "nested":
+            prog, used = composite_progress(members[0], composite_progress(members[1], members[2])), members
+        else:
+            import contextlib
+            import io
+            from uberjob.progress import console_progress
+            prog, used = composite_progress(members[0], console_progress), members[:1]
+        n_runs = 3
+        for k in range(n_runs):
+            rec = plans.Rec()
+            spec = plans.gen_spec(rng, nmax=4)
+            plan, nodes, _ = plans.build(spec, rec, {})
+            import contextlib
+            import io
+            with contextlib.redirect_stdout(io.StringIO()), contextlib.redirect_stderr(io.StringIO()):
+                uberjob.run(plan, output=[nodes[0]], progress=prog, max_workers=2)
+            done += 1
+            for mi, m in enumerate(used):
+                if len(m.made) != k + 1:
+                    viol.append({"property": "C15", "what": f"{shape}: after run #{k + 1} of one Progress object member #{mi} had handed out "
+                                 f"{len(m.made)} observers (every run must get its own)"})
+                    break
+                for c in legal_py(m.made[-1].ev):
+                    viol.append({"property": "C15", "what": f"{shape}: run #{k + 1} of one Progress object, member #{mi}: {c}",
+                                 "sequence": m.made[-1].ev[:30]})
+                for oi, o in enumerate(m.made[:-1]):
+                    if sum(1 for e in o.ev if e == ("enter",)) != 1 or sum(1 for e in o.ev if e == ("exit",)) != 1:
+                        viol.append({"property": "C15", "what": f"{shape}: the observer of run #{oi + 1} was entered/exited again by run #{k + 1}"})
+            if viol:
+                return {"violations": viol, "coverage": {"progress_reuse_runs": done}}
+    return {"violations": viol, "coverage": {"progress_reuse_runs": done}}
+
+
 def explore(ctx):
     res = explore_main(ctx)
+    if not res["violations"]:
+        c = composite_reuse_cases(ctx)
+        res["violations"] += c["violations"]
+        res["coverage"].update(c["coverage"])
     if not res["violations"]:
         c = composite_enter_cases(ctx)
         res["violations"] += c["violations"]
